@@ -4,6 +4,10 @@ P="$1"; C="$2"; T="${3:-quick}"
 git -C /repo apply "$P" || { echo "patch does not apply"; exit 9; }
 cd /verif && ./check "$C" --tier "$T" > /tmp/mutcheck.$$.log 2>&1; rc=$?
 git -C /repo checkout -- . 
-grep -E "^(VIOLATION|UNDECIDED|KNOWN|CHECKER|C[0-9]+:)" /tmp/mutcheck.$$.log | cut -c1-260 | head -12
+nb=$(grep -c "^  bounded" /tmp/mutcheck.$$.log); no=$(grep -c "^  obligation" /tmp/mutcheck.$$.log); nu=$(grep -c "^UNDECIDED" /tmp/mutcheck.$$.log)
+echo "violations: bounded=$nb obligation=$no undecided=$nu exit=$rc"
+grep -E "^  obligation" /tmp/mutcheck.$$.log | cut -c1-220 | head -4
+grep -E "^  bounded" /tmp/mutcheck.$$.log | cut -c1-220 | head -2
+grep -E "^(UNDECIDED|CHECKER)" /tmp/mutcheck.$$.log | cut -c1-220 | head -2
+grep -E "^C[0-9]+:" /tmp/mutcheck.$$.log
 rm -f /tmp/mutcheck.$$.log
-echo "exit=$rc"
